@@ -168,7 +168,15 @@ def gen_signal(rng, min_len=1, max_len=80):
                 out.append(x + rng.choice([-1, 1]) * eps * rng.choice([1, 2, 0.5]))
         sig = out
     if rng.random() < 0.08:
-        sig = [(-0.0 if (x == 0 and rng.random() < 0.5) else x) for x in sig]      # negative zeros are zeros
+        flip = rng.random() < 0.5
+        out = []
+        for x in sig:                                   # negative zeros are zeros; neighbours 0.0, -0.0 form a plateau
+            if x == 0:
+                flip = (not flip) if rng.random() < 0.7 else flip
+                out.append(-0.0 if flip else 0.0)
+            else:
+                out.append(x)
+        sig = out
     return sig[:max(max_len, min_len)]
 
 
@@ -349,6 +357,7 @@ def generate(prop, rng, tier):
     tr = {"world": NAME, "signal": sig, "replicas": reps, "order": order}
     if prop == "C02":
         tr["spec_dtype"] = rng.choice([None, None, "int", "f32"])
+        tr["scribble"] = rng.random() < 0.2
     if prop == "C01":
         tr["final_flush"] = rng.random() < 0.25
         tr["scribble"] = rng.random() < 0.3
@@ -702,6 +711,17 @@ def generate_c03(rng, tier):
                 if rng.random() < 0.3 and vals:
                     vals = [vals[0]] + vals      # two-sample plateau on a slope
             ins.append([i, vals])
+        if rng.random() < 0.12 and n >= 2:
+            # a long dwell: one level held for hundreds of samples (all of them non-reversal samples)
+            i = rng.randrange(n)
+            dwell = [sig[i]] * rng.choice([130, 200, 300])
+            for entry in ins:
+                if entry[0] == i:
+                    entry[1] = dwell + entry[1]        # repeats of the original come directly after it
+                    break
+            else:
+                ins.append([i, dwell])
+                ins.sort(key=lambda iv: iv[0])
         tw["ins"] = ins
     elif kind == "nan":
         k = rng.randint(1, 4)
@@ -722,6 +742,7 @@ def generate_c03(rng, tier):
         # the twin is delivered in chunks (cut positions are fractions of the twin's length, so they
         # survive shrinking); the relation must hold however the twin is fed
         tr["twin_cuts"] = sorted(rng.random() for _ in range(rng.choice([1, 1, 2, 3, 6])))
+        tr["reuse_buffer"] = rng.random() < 0.3
     return tr
 
 
@@ -775,6 +796,11 @@ def execute_c03(trace):
                 lo, hi = min(a, b), max(a, b)
                 ok = all(lo <= v <= hi and (v != b or a == b) for v in vals)
                 ok = ok and all((vals[i + 1] - vals[i]) * (b - a) >= 0 for i in range(len(vals) - 1))
+            if ok and pos in ins and pos < n - 1:
+                # several entries for one position: the combined run must still be monotone
+                comb = ins[pos] + vals
+                b = sig[pos + 1]
+                ok = all((comb[i + 1] - comb[i]) * (b - a) >= 0 for i in range(len(comb) - 1))
             if ok:
                 ins.setdefault(pos, []).extend(vals)
         twin = []
@@ -839,7 +865,14 @@ def execute_c03(trace):
                         out.count("probe:nan_first_sample_of_a_chunk")
                 bounds = [0] + cuts + [m]
                 for a_, b_ in zip(bounds[:-1], bounds[1:]):
-                    _feed(d2, twin_in[a_:b_] if not isinstance(twin_in, pd.Series) else twin_in.iloc[a_:b_])
+                    if isinstance(twin_in, pd.Series):
+                        _feed(d2, twin_in.iloc[a_:b_])
+                    elif trace.get("reuse_buffer") and cuts:
+                        buf = np.array(twin_in[a_:b_], dtype=np.float64)      # the reader's block buffer ...
+                        _feed(d2, buf)
+                        buf[:] = 1e30                                          # ... is refilled after the call
+                    else:
+                        _feed(d2, twin_in[a_:b_])
             o2 = observe(d2, det, rec)
         except RealCodeError as e:
             out.violate("exception", "%s/%s/%s" % (kind, det, e.where), {"type": e.exc_type, "msg": e.msg})
@@ -926,6 +959,10 @@ def shrink(prop, trace):
                 yield t
     else:
         tw = trace["twin"]
+        if trace.get("reuse_buffer"):
+            t = copy.deepcopy(trace)
+            t["reuse_buffer"] = False
+            yield t
         if trace.get("twin_cuts"):
             t = copy.deepcopy(trace)
             t["twin_cuts"] = []
